@@ -100,7 +100,14 @@ fn main() {
                         if i >= cases.len() {
                             break;
                         }
+                        let t0 = std::time::Instant::now();
                         run_case(ctx, &cases[i], &mut t);
+                        let ms = t0.elapsed().as_millis() as u64;
+                        if ms > 5000 {
+                            ctx.obs("cases_slower_than_5s", 1);
+                            eprintln!("slow case {} ms: {}", ms, cases[i].to_json());
+                        }
+                        ctx.obs_max("slowest_case_ms", ms);
                         t.flush(ctx);
                     }
                 })
